@@ -204,3 +204,17 @@ Definition validb (c : case) : bool :=
   && (0 <=? f_len (c_fill c)) && (0 <=? f_lo (c_fill c)) && (1 <=? f_m (c_fill c)) && (f_lo (c_fill c) + f_m (c_fill c) <=? 256)
   && (len (data_of c) <? 16777216).
 Definition valid (c : case) : Prop := validb c = true.
+
+(* ---------------- the code before the C07 fix: commits ---------------- *)
+Module Legacy.
+  Definition upd (fx : fixes) (pad budget opn : bool) : fixes :=
+    {| fx_pad_sign := pad; fx_budget := budget; fx_rsa_block := fx_rsa_block fx; fx_null_cert := fx_null_cert fx;
+       fx_own_cert := fx_own_cert fx; fx_no_keys := fx_no_keys fx; fx_aes_block := fx_aes_block fx;
+       fx_size_sig := fx_size_sig fx; fx_padding := fx_padding fx; fx_seq := fx_seq fx; fx_opn_budget := opn |}.
+  (* before "symmetric chunks were padded in Sign mode and padding was never removed by the receiver" *)
+  Definition run_padding (c : case) : list Z := run_with (upd current false true true) c.
+  (* before "chunk body budget ignored worst-case padding so secured chunks exceeded the negotiated size" *)
+  Definition run_budget (c : case) : list Z := run_with (upd current true false true) c.
+  (* before "chunk body budget of asymmetric (OpenSecureChannel) chunks ignored RSA block expansion and padding" *)
+  Definition run_opn_budget (c : case) : list Z := run_with (upd current true true false) c.
+End Legacy.
